@@ -26,16 +26,17 @@ type Case struct {
 }
 
 const (
-	findingDupPath = "C02-error-path-repeats-last-segment"
-	findingPanic   = "C02-nullable-inner-list-null-panic"
-	// planner findings (the tree T is not a faithful compilation of the operation)
-	findingUnionTypename      = "C02-plan-union-typename-hoisted"
-	findingCopyPossible       = "C02-plan-object-copy-drops-possible-types"
+	// renderer / loader (v2/pkg/engine/resolve)
+	findingDupPath            = "C02-error-path-repeats-last-segment"
+	findingPanic              = "C02-nullable-inner-list-null-panic" // fixed by 98aa076
 	findingConcreteNoTypename = "C02-concrete-object-without-typename-drops-conditioned-fields"
-	findingMergeScalars       = "C02-plan-merge-scalars-mixes-type-conditions"
-	findingMergeNestedList    = "C02-plan-merge-nested-list-drops-selection"
-	findingNestedAbstract     = "C02-plan-nested-abstract-fragment-loses-outer-condition"
 	findingRootNotObject      = "C02-subgraph-data-not-object-aborts-request"
+	findingCopyPossible       = "C02-plan-object-copy-drops-possible-types"
+	// planner / postprocess: the tree T is not a faithful compilation of the operation
+	findingUnionTypename   = "C02-plan-union-typename-hoisted"
+	findingNestedAbstract  = "C02-plan-nested-abstract-fragment-loses-outer-condition"
+	findingMergeScalars    = "C02-plan-merge-scalars-mixes-type-conditions"
+	findingMergeNestedList = "C02-plan-merge-nested-list-drops-selection"
 )
 
 // driver modes
@@ -316,70 +317,122 @@ func checkCase(c Case, o *pbt.Rec, md mode) pbt.Verdict {
 	if len(res.viol) == 0 && len(res.uncovered) == 0 {
 		return pbt.OK
 	}
+	return attribute(res, uf, ctxt)
+}
+
+// attribute turns a failing result into a verdict. Every violation and every uncovered
+// replacement must be explained by a recognised known finding for the case to count as known;
+// one unexplained item makes it a plain violation (nothing is masked by a co-occurring finding).
+func attribute(res result, uf []unfaithful, ctxt func() string) pbt.Verdict {
 	var lines []string
 	if len(res.viol) > 0 {
 		lines = append(lines, violText(res.viol))
 	}
-	dupPathOnly := len(res.viol) == 0
 	for _, u := range res.uncovered {
-		if !recogniseDupPath(u, res.errs) {
-			dupPathOnly = false
-		}
 		lines = append(lines, fmt.Sprintf("clause 5: %s was replaced by null but no error carries the response path of an offender below it (offenders %v; error paths: %s)",
 			pathKey(u.path), u.offs, res.errPaths()))
 	}
 	msg := strings.Join(lines, "\n  ")
-	if dupPathOnly {
-		return pbt.BadKnown(findingDupPath, "%s%s", msg, ctxt())
+
+	id := ""            // first recognised finding
+	var unknown []unfaithful // plan disagreements that explain a violation but match no finding
+	var involved []unfaithful
+	allExplained := true
+	note := func(k string) {
+		if id == "" {
+			id = k
+		}
 	}
-	// Attribution to the planner: the tree disagrees with the operation at a position that a
-	// violation is about. Each such disagreement must be recognised, otherwise it is reported.
-	if rel := relevantUnfaithful(uf, res); len(rel) > 0 {
-		shown := rel
+	explainedBy := func(match func(u unfaithful) bool) bool {
+		ok := false
+		for _, u := range uf {
+			if !match(u) {
+				continue
+			}
+			involved = append(involved, u)
+			if k := recognisePlanFinding(u); k != "" {
+				note(k)
+				ok = true
+			} else {
+				unknown = append(unknown, u)
+			}
+		}
+		return ok
+	}
+	for _, v := range res.viol {
+		v := v
+		if !explainedBy(func(u unfaithful) bool { return explainsViolation(u, v) }) {
+			allExplained = false
+		}
+	}
+	for _, r := range res.uncovered {
+		r := r
+		if recogniseDupPath(r, res.errs) {
+			note(findingDupPath)
+			continue
+		}
+		if !explainedBy(func(u unfaithful) bool { return explainsUncovered(u, r) }) {
+			allExplained = false
+		}
+	}
+	if len(involved) > 0 {
+		shown := involved
 		if len(shown) > 4 {
 			shown = shown[:4]
 		}
-		msg = fmt.Sprintf("the planner-built tree disagrees with the operation (%d places): %v\n  %s", len(rel), shown, msg)
-		id := ""
-		for _, u := range rel {
-			k := recognisePlanFinding(u)
-			if k == "" {
-				return pbt.Bad("%s%s", msg, ctxt())
-			}
-			if id == "" {
-				id = k
-			}
-		}
+		msg = fmt.Sprintf("the planner-built tree disagrees with the operation: %v\n  %s", shown, msg)
+	}
+	if allExplained && len(unknown) == 0 && id != "" {
 		return pbt.BadKnown(id, "%s%s", msg, ctxt())
 	}
 	return pbt.Bad("%s%s", msg, ctxt())
 }
 
-// relevantUnfaithful keeps the plan/operation disagreements located at or above a position
-// some violation (or uncovered replacement) is about.
-func relevantUnfaithful(uf []unfaithful, res result) []unfaithful {
-	var out []unfaithful
-	for _, u := range uf {
-		rel := false
-		for _, v := range res.viol {
-			if v.kind == "errors-on-well-typed" || hasPrefixPath(v.path, u.p) {
-				rel = true
-			}
-			// a null that nothing in j explains may stem from a plan that demands more below it
-			if (v.kind == "replaced-without-offender" || v.kind == "not-nearest-nullable") && hasPrefixPath(u.p, v.path) {
-				rel = true
-			}
+func samePath(a, b []any) bool { return len(a) == len(b) && hasPrefixPath(a, b) }
+
+// explainsViolation: can the plan/operation disagreement u produce the violation v?
+func explainsViolation(u unfaithful, v violation) bool {
+	switch u.kind {
+	case "key-missing-in-plan":
+		// the only possible symptom: exactly this key is missing in exactly this object
+		return v.kind == "key-missing" && v.key == u.key && samePath(v.path, u.p)
+	case "possible-types":
+		// a lost __typename guard: the object is rendered although its runtime type is unknown
+		return v.kind == "abstract-unknown-type-rendered" && samePath(v.path, u.p)
+	case "key-extra-in-plan", "key-duplicate-in-plan":
+		switch v.kind {
+		case "key-unselected", "key-duplicate":
+			return v.key == u.key && samePath(v.path, u.p)
+		case "errors-on-well-typed":
+			return true // the plan demands a key j rightly does not have
+		case "replaced-without-offender", "not-nearest-nullable":
+			// ... and the resulting null bubbles to the object or above it
+			return hasPrefixPath(u.p, v.path)
 		}
-		for _, r := range res.uncovered {
-			if hasPrefixPath(r.path, u.p) || hasPrefixPath(u.p, r.path) {
-				rel = true
-			}
-		}
-		if rel {
-			out = append(out, u)
-		}
+		return false
+	default: // node-kind, nullability, enum-values, path: anything at or below the node
+		return hasPrefixPath(v.path, u.p)
 	}
-	return out
+}
+
+func explainsUncovered(u unfaithful, r replacement) bool {
+	switch u.kind {
+	case "possible-types":
+		// the error for the bad __typename is reported at another path (a selected __typename below)
+		for _, f := range r.offs {
+			if samePath(f.path, u.p) && strings.HasPrefix(f.what, "typename-") {
+				return true
+			}
+		}
+		return false
+	case "key-extra-in-plan":
+		// the error is about the key the plan demands, which is no offender of j
+		return hasPrefixPath(u.p, r.path)
+	case "key-missing-in-plan", "key-duplicate-in-plan":
+		return false
+	default:
+		return hasPrefixPath(r.path, u.p) || hasPrefixPath(u.p, r.path)
+	}
 }
 
 // recognisePlanFinding maps one plan/operation disagreement to a recorded planner finding.
